@@ -925,9 +925,15 @@ def run(tier: str, seed: int, props: list[str] | None = None, n_cases: int | Non
             info.update(_x)
             return _o(kind, info)
         oracle.choose = choose  # type: ignore[method-assign]
-        cr = run_case(f"s{seed}_{i}", cfg, script, oracle, wall_seed, deliver_throw)
+        # re-entrancy: the first invocation of each call's operation makes a complete nested call through the
+        # same policy object (only without shared components, on which the outer call legitimately depends)
+        reentrant = cfg.breaker is None and cfg.budget is None and rng.random() < 0.12
+        cr = run_case(f"s{seed}_{i}", cfg, script, oracle, wall_seed, deliver_throw, reentrant=reentrant)
         meta = {"wall_seed": wall_seed, "deliver_throw": deliver_throw}
         batch.append((cr, meta))
+        for ncr in cr.nested:
+            counters["entry"]["nested-call"] += 1
+            batch.append((ncr, {"wall_seed": wall_seed, "deliver_throw": False}))
         answers = [ln[2:] for ln in cr.text.splitlines() if ln.startswith("a ")]
         if "C12" in (props or LOOP_PROPS):
             faulty = any(x.startswith("raise ") and kind_of(r) != "op" for (_, r, x) in cr.exchanges)
